@@ -326,9 +326,19 @@ def _sig_open_link_paren_before_two_space_break(case: dict, f: Failure) -> bool:
     return _re.search(r"\]\((?:[^()\n]|\([^()\n]*\))*[ \t]{2,}\n", case["text"]) is not None
 
 
+def _sig_delimiter_run_before_two_space_break(case: dict, f: Failure) -> bool:
+    """An emphasis delimiter run directly before a hard line break written with two spaces ("]***<SP><SP><NL>x*"): in the
+    source the run is followed by a blank (it cannot open emphasis); with the break normalised to a backslash it is followed
+    by punctuation and pairs with a later delimiter."""
+    if case.get("kind", "doc") != "doc":
+        return False
+    return _re.search(r"[*_~][ \t]{2,}\n", case["text"]) is not None
+
+
 DECOMPOSE_KEY = "text"  # several recorded findings in one document: see core.sig_hit
 
 SIGS = {
+    "delimiter_run_before_two_space_break": _sig_delimiter_run_before_two_space_break,
     "pipe_line_under_table": _sig_pipe_line_under_table,
     "open_link_paren_before_two_space_break": _sig_open_link_paren_before_two_space_break,
     "footnote_starts_with_list": _sig_footnote_starts_with_list,
